@@ -18,6 +18,13 @@ Proof.
   apply (in_map fst) in E. cbn in E. apply pmax_list_ge in E. unfold fresh_path in E. lia.
 Qed.
 
+Lemma fresh_path_above (m : gmap positive file) p : (fresh_path m <= p)%positive -> m !! p = None.
+Proof.
+  intros Hle. destruct (m !! p) as [f|] eqn:E; [|reflexivity]. exfalso.
+  apply elem_of_map_to_list in E. apply elem_of_list_In in E.
+  apply (in_map fst) in E. cbn in E. apply pmax_list_ge in E. unfold fresh_path in Hle. lia.
+Qed.
+
 (* ---------- fault plans ---------- *)
 (* no fault from call k on *)
 Definition quiet (pl : plan) (k : nat) : Prop := forall j, k <= j -> pl j = false.
